@@ -28,16 +28,29 @@ Lemma bset_128 x : bset x 128 = Z.testbit x 7. Proof. exact (bset_pow2 x 7 ltac:
 Lemma testbit_clr8 x m k : Z.testbit (clr8 x m) k = Z.testbit x k && Z.testbit (255 - m) k.
 Proof. unfold clr8, not8. apply Z.land_spec. Qed.
 
-(* evaluate closed boolean / integer subterms *)
+(* evaluate closed boolean / integer subterms (only syntactically closed ones: vm_compute on an open term
+   mentioning large definitions can take unbounded time) *)
+Ltac is_pos_num p := lazymatch p with xH => idtac | xO ?q => is_pos_num q | xI ?q => is_pos_num q end.
+Ltac closed_z c :=
+  lazymatch c with
+  | Z0 => idtac
+  | Zpos ?p => is_pos_num p
+  | Zneg ?p => is_pos_num p
+  | Z.add ?a ?b => closed_z a; closed_z b
+  | Z.sub ?a ?b => closed_z a; closed_z b
+  end.
+
 Ltac eval_closed_bits :=
   repeat match goal with
          | |- context [Z.testbit ?c ?k] =>
+           closed_z c; closed_z k;
            let v := eval vm_compute in (Z.testbit c k) in
            match v with
            | true => change (Z.testbit c k) with true
            | false => change (Z.testbit c k) with false
            end
          | H : context [Z.testbit ?c ?k] |- _ =>
+           closed_z c; closed_z k;
            let v := eval vm_compute in (Z.testbit c k) in
            match v with
            | true => change (Z.testbit c k) with true in H
